@@ -741,7 +741,7 @@ def tail_steps(rng, gen, c2m):
 
 
 def gen_history(rng, mirs, cs, kind=None):
-    kind = kind or rng.choice(["mir", "mir", "c", "c", "c", "api", "api", "cmisc", "cerr", "lrefmod", "tiered", "jcallmod", "movectx"])
+    kind = kind or rng.choice(["mir", "mir", "c", "c", "c", "api", "api", "cmisc", "cerr", "lrefmod", "tiered", "jcallmod", "movectx", "reload", "c2mopts"])
     iface = rng.choice(IFACES)
     level = rng.below(4)
     link = f"link:{iface}@{level}"
@@ -806,6 +806,30 @@ def gen_history(rng, mirs, cs, kind=None):
             s.append(f"genall:{rng.below(2)}")
         return {"kind": kind, "input": "generated lref module", "iface": iface, "level": level,
                 "files": {"lref.mir": gen_lref_module(rng)}, "steps": s + tail_steps(rng, iface != "interp", False)}
+    if kind == "reload":
+        # MIR_load_module of the same module more than once: before the link, after it, twice in a row
+        lv = rng.below(4)
+        lk = f"link:{iface}@{lv}"
+        s.append("scan:$WORK/sections.mir")
+        pat = rng.choice([["load", lk, "run:sum", "load", lk, "run:sum"], ["load", "load", lk, "run:sum"],
+                          ["load", lk, "run:sum", "load", "load", lk, "run:sum", "load"], ["load", lk, "load", lk, "run:sum"],
+                          ["load", "load", "load", lk, "run:sum", "load", lk, "run:sum"]])
+        if rng.chance(1, 3):
+            pat = pat[:1] + ["output"] + pat[1:]
+        return {"kind": kind, "input": "generated sections module", "iface": iface, "level": lv,
+                "files": {"sections.mir": gen_sections_module(rng)}, "steps": s + pat + tail_steps(rng, gen, False)}
+    if kind == "c2mopts":
+        # option counts at VARR growth boundaries: -I directories (header found only through the LAST one),
+        # -D macros (the harness always adds 2 of its own)
+        ni = rng.choice([1, 2, 63, 64, 65, 127, 128, 129, 64, 64])
+        nd = rng.choice([0, 0, 1, 61, 62, 63, 125, 126, 127])
+        src = os.path.join(VERIF, "corpus", "C17", "inc_src.c")
+        s += [f"c2m:{src}@I{ni}" + (f"D{nd}" if nd else "")]
+        if rng.chance(1, 4):
+            s.append(f"c2m:{src}@EI{rng.choice([63, 64, 65])}")
+        s += ["load", link, "run"]
+        return {"kind": kind, "input": f"inc_src.c -I x{ni} -D x{nd + 2}", "iface": iface, "level": level,
+                "asan_build": rng.chance(1, 2), "steps": s + tail_steps(rng, gen, True)}
     if kind == "jcallmod":
         lv = rng.below(4)
         iface = rng.choice(["gen", "gen", "lazy", "lazybb", "interp"])
@@ -1031,8 +1055,30 @@ def gen_names_module(rng):
     return "\n".join(L)
 
 
+def gen_sections_module(rng):
+    """multi-item data sections of every kind (a named item followed by unnamed ones: integer / float data of
+    several element types, bss, ref data, string data) and a non-exported function reading the first section.
+    No exports (a module with exports cannot be loaded twice) and no lref data (load+link, load+link of a module
+    with lref data never terminates on the unchanged tree: the lref list of the function becomes cyclic)."""
+    unnamed = ["i64 20", "i32 30", "u8 1, 2, 3", "u16 7", "d 1.5", "f 2.5f", "bss 16", "bss 1", "ref tbl, 8", "i64 5, 6, 7, 8"]
+    L = ["mr:   module", "tbl:  i64 10", "      i64 20"]
+    for _ in range(rng.below(6)):
+        L.append("      " + rng.choice(unnamed))
+    heads = ["cnt:  i64 0", "bs:   bss 32", "str:  string \"abc\"", "rr:   ref tbl, 16", "dd:   d 1.0, 2.0"]
+    for i in range(1 + rng.below(4)):
+        h = heads[(i + rng.below(5)) % 5]
+        L.append(h.replace(":", f"{i}:", 1) if True else h)
+        for _ in range(rng.below(4)):
+            L.append("      " + rng.choice(unnamed))
+    L += ["sum:  func i64", "      local i64:p, i64:s", "      mov p, tbl", "      mov s, i64:(p)", "      add s, s, i64:8(p)",
+          "      ret s", "      endfunc", "      endmodule", ""]
+    return "\n".join(L)
+
+
 def report_history(r, sig, what, detail):
     h = r["h"]
+    if sig.startswith("C17:leak:") and sum(1 for x in h["steps"] if x == "load") > 1:
+        sig = "C17:reload-leak:" + sig[len("C17:leak:"):]        # a leak that needs MIR_load_module of a loaded module
     finding(sig, what, {"stage": "tie", "theorem_or_correspondence": "ledger monitor over an API history",
                         "input": {"steps": [x.replace(REPO, "$REPO") for x in h["steps"]], **({"files": h["files"]} if h.get("files") else {})},
                         "impl": detail, "spec_verdict": what,
@@ -1182,6 +1228,14 @@ if EXE is not None and os.path.exists(DRV):
         hs.append(gen_history(ck.rng, mirs, cs, "jcallmod"))
         hs[-1]["steps"] = [x if not (x.startswith("link:") or x.startswith("genall:")) else x.split("@")[0].split(":")[0] + ":" + (x.split(":")[1].split("@")[0] + "@" if x.startswith("link:") else "") + str(i % 4) for x in hs[-1]["steps"]]
         hs[-1]["level"] = i % 4
+    for i in range(8 if QUICK else 60):
+        hs.append(gen_history(ck.rng, mirs, cs, "reload"))
+    for i, ni in enumerate([64, 64, 63, 65, 128, 129] if QUICK else [64, 64, 63, 65, 127, 128, 129, 1, 2, 64] * 4):
+        h2 = gen_history(ck.rng, mirs, cs, "c2mopts")
+        h2["steps"] = [re.sub(r"@I\d+", f"@I{ni}", x, count=1) if x.startswith("c2m:") and "@E" not in x else x for x in h2["steps"]]
+        h2["input"] = re.sub(r"-I x\d+", f"-I x{ni}", h2["input"])
+        h2["asan_build"] = i % 2 == 1
+        hs.append(h2)
     for i in range(10 if QUICK else 80):
         hs.append(gen_history(ck.rng, mirs, cs, "movectx" ))
         hs[-1]["asan_build"] = i % 2 == 1
